@@ -3,5 +3,5 @@ From Coq Require Import ExtrOcamlBasic ZArith.
 Extraction Language OCaml.
 Extraction "server_model.ml" init step run mkParams
   ongoing starting full drain spc ipc ppc shpc cancelled icanc acked gate_rel idone slot ierr gotp
-  aq_q aq_ph penq proot pbasis tret compl trace panicked shcount
+  aq_q aq_ph penq proot pbasis tret compl trace panicked shcount rel
   Z.of_nat Z.to_nat in_impl holds_slot count_slots pipe_target pred_done ready_closed.
